@@ -342,8 +342,9 @@ fn rv_cases(o: &mut Out, tier: &str) {
             } else if len == 1 {
                 pairs.iter().map(|p| vec![*p]).collect()
             } else {
-                // second pair fixed well-formed or equal to the first
-                pairs.iter().flat_map(|p| vec![vec![*p, (1, 3)], vec![(1, 3), *p]]).collect()
+                // the full product: in particular an ill-formed interval before AND after an unbounded or
+                // half-bounded one
+                pairs.iter().flat_map(|p| pairs.iter().map(move |q| vec![*p, *q])).collect()
             };
             for combo in combos {
                 let b: Vec<(f64, f64)> = combo.iter().map(|(i, j)| (sym[*i].1, sym[*j].1)).collect();
@@ -746,8 +747,15 @@ fn compound_cases(o: &mut Out, seed: u64, tier: &str) {
             }
             CompoundState { components: comps }
         };
-        for _ in 0..6 {
-            let (a, b) = (mk(&mut rng), mk(&mut rng));
+        for pi in 0..6 {
+            let (a, mut b) = (mk(&mut rng), mk(&mut rng));
+            // every other pair shares one component exactly (a pure translation / a locked joint)
+            if pi % 2 == 1 {
+                let ci = pi % ncomp;
+                b.components[ci] = a.components[ci].clone();
+            }
+            // the output buffer of interpolate is an unrelated state: it must be overwritten entirely
+            let garbage = mk(&mut rng);
             // distance law
             let mut acc = 0.0;
             for i in 0..ncomp {
@@ -759,7 +767,7 @@ fn compound_cases(o: &mut Out, seed: u64, tier: &str) {
             let dist_ok = (got - want).abs() <= 1e-12 * want.max(1.0);
             // interpolation component-wise
             let t = [0.0, 0.25, 0.5, 1.0][rng.random_range(0..4)];
-            let mut out = a.clone();
+            let mut out = garbage.clone();
             space.interpolate(&a, &b, t, &mut out);
             let mut interp_ok = true;
             for i in 0..ncomp {
@@ -767,6 +775,18 @@ fn compound_cases(o: &mut Out, seed: u64, tier: &str) {
                 subs[i].interpolate_dyn(&*a.components[i], &*b.components[i], t, &mut *c);
                 interp_ok &= vharness::codec::dyn_bits(&*c) == vharness::codec::dyn_bits(&*out.components[i]);
             }
+            // C10 on the compound itself (its own metric, dirty output buffers): endpoints, constant
+            // speed, reversal
+            let wmax = weights.iter().cloned().fold(0.0f64, f64::max);
+            let ctol = 1e-6 * (1.0 + wmax);
+            let dab = space.distance(&a, &b);
+            let (mut i0, mut i1, mut rev) = (garbage.clone(), garbage.clone(), b.clone());
+            space.interpolate(&a, &b, 0.0, &mut i0);
+            space.interpolate(&a, &b, 1.0, &mut i1);
+            space.interpolate(&b, &a, 1.0 - t, &mut rev);
+            let c10_end = space.distance(&a, &i0) <= ctol && space.distance(&i1, &b) <= ctol;
+            let c10_prop = (space.distance(&a, &out) - t * dab).abs() <= ctol && (space.distance(&out, &b) - (1.0 - t) * dab).abs() <= ctol;
+            let c10_rev = space.distance(&out, &rev) <= ctol;
             // enforce / satisfies component-wise
             let mut e = a.clone();
             space.enforce_bounds(&mut e);
@@ -780,14 +800,35 @@ fn compound_cases(o: &mut Out, seed: u64, tier: &str) {
             }
             let sat_ok = space.satisfies_bounds(&a) == sat_want;
             o.ev(json!({"ev": "sp", "sp": "cmp", "op": "laws", "layout": kinds, "weights": weights, "dist": dist_ok, "interp": interp_ok,
-                        "enforce": enf_ok, "sat": sat_ok}));
+                        "enforce": enf_ok, "sat": sat_ok, "c10_end": c10_end, "c10_prop": c10_prop, "c10_rev": c10_rev}));
         }
         // resolution law
         let mut acc = 0.0;
         for i in 0..ncomp {
             acc += (subs[i].get_longest_valid_segment_length_dyn() * weights[i]).powi(2);
         }
-        let res_ok = (space.get_longest_valid_segment_length() - acc.sqrt()).abs() <= 1e-12 * acc.sqrt().max(1.0);
+        let mut res_ok = (space.get_longest_valid_segment_length() - acc.sqrt()).abs() <= 1e-12 * acc.sqrt().max(1.0);
+        // the law holds for the weights the space has NOW: re-weight the (public) field after the first
+        // query, and take a clone
+        {
+            let mut sp2 = space.clone();
+            let w2: Vec<f64> = weights.iter().enumerate().map(|(i, w)| if *w == 0.0 { 3.0 } else { w * [0.5, 7.0, 0.01][i % 3] }).collect();
+            sp2.weights = w2.clone();
+            let mut acc2 = 0.0;
+            for i in 0..ncomp {
+                acc2 += (subs[i].get_longest_valid_segment_length_dyn() * w2[i]).powi(2);
+            }
+            res_ok &= (sp2.get_longest_valid_segment_length() - acc2.sqrt()).abs() <= 1e-12 * acc2.sqrt().max(1.0);
+            let sp3 = sp2.clone();
+            res_ok &= sp3.get_longest_valid_segment_length().to_bits() == sp2.get_longest_valid_segment_length().to_bits();
+            // distance follows the current weights too
+            let (a, b) = (mk(&mut rng), mk(&mut rng));
+            let mut d2 = 0.0;
+            for i in 0..ncomp {
+                d2 += (subs[i].distance_dyn(&*a.components[i], &*b.components[i]) * w2[i]).powi(2);
+            }
+            res_ok &= (sp2.distance(&a, &b) - d2.sqrt()).abs() <= 1e-12 * d2.sqrt().max(1.0);
+        }
         // sampling: one scripted word stream; the compound must consume the concatenation of what the
         // components consume, in order, and produce the same component states
         let words: Vec<u64> = (0..64).map(|i| (i as u64 + 1).wrapping_mul(0xD1B54A32D192ED03u64 ^ seed)).collect();
@@ -854,9 +895,9 @@ fn compound_cases(o: &mut Out, seed: u64, tier: &str) {
             let a = SE2State::new(rng.random_range(-5.0..5.0), rng.random_range(-1.0..5.0), rng.random_range(-4.0..4.0));
             let c = SE2State::new(rng.random_range(-5.0..5.0), rng.random_range(-1.0..5.0), rng.random_range(-4.0..4.0));
             ok &= se2.distance(&a, &c).to_bits() == cmp.distance(&a.0, &c.0).to_bits();
-            let mut o1 = a.clone();
+            let mut o1 = SE2State::new(-9.0, 9.0, 2.9);
             se2.interpolate(&a, &c, 0.3, &mut o1);
-            let mut o2 = a.0.clone();
+            let mut o2 = SE2State::new(7.0, -7.0, -1.1).0;
             cmp.interpolate(&a.0, &c.0, 0.3, &mut o2);
             ok &= vharness::codec::Bits::bits(&o1) == vharness::codec::Bits::bits(&o2);
             let mut e1 = a.clone();
@@ -869,11 +910,17 @@ fn compound_cases(o: &mut Out, seed: u64, tier: &str) {
         for (a, c) in [(SE2State::new(1.0, 2.0, 0.3), SE2State::new(1.0, 2.0, -2.0)), (SE2State::new(1.0, 2.0, 0.3), SE2State::new(-2.0, 0.5, 0.3)),
                        (SE2State::new(0.0, 0.0, 0.0), SE2State::new(0.0, 0.0, 0.0))] {
             ok &= se2.distance(&a, &c).to_bits() == cmp.distance(&a.0, &c.0).to_bits();
-            let mut o1 = a.clone();
+            let mut o1 = SE2State::new(-9.0, 9.0, 2.9);
             se2.interpolate(&a, &c, 0.5, &mut o1);
-            let mut o2 = a.0.clone();
+            let mut o2 = SE2State::new(7.0, -7.0, -1.1).0;
             cmp.interpolate(&a.0, &c.0, 0.5, &mut o2);
             ok &= vharness::codec::Bits::bits(&o1) == vharness::codec::Bits::bits(&o2);
+            // SE(2) with the resolution / weight of its inner compound changed after the first query
+            let mut se2b = se2.clone();
+            se2b.0.weights[1] = w + 2.5;
+            let cmpb = CompoundStateSpace::new(vec![Box::new(RealVectorStateSpace::new(2, Some(vec![b[0], b[1]])).unwrap()), Box::new(SO2StateSpace::new(Some(b[2])).unwrap())], vec![1.0, w + 2.5]);
+            ok &= se2b.get_longest_valid_segment_length().to_bits() == cmpb.get_longest_valid_segment_length().to_bits();
+            ok &= se2b.distance(&a, &c).to_bits() == cmpb.distance(&a.0, &c.0).to_bits();
         }
         ok &= se2.get_longest_valid_segment_length().to_bits() == cmp.get_longest_valid_segment_length().to_bits();
         let mut s1 = StdRng::seed_from_u64(77);
@@ -1007,6 +1054,30 @@ fn sampler_cases(o: &mut Out, tier: &str) {
             o.ev(json!({"ev": "sp", "sp": "so3", "op": "conesampler", "j": [a, b, c, d], "H": h, "cone": cone_angle, "incone": dev <= cone_angle,
                         "nearedge": (dev - cone_angle).abs() < 1e-6, "words": r.log.len(), "parallel": par, "fallback": ident,
                         "insat": cone.satisfies_bounds(&s)}));
+        }
+    }
+    // long rejection runs: the sampler is a pure rejection sampler - however many proposals are rejected
+    // (outside the ball, or inside the ball but outside the cone), the output is the projection of the
+    // FIRST accepted proposal and exactly four words are consumed per proposal. (A budget of attempts with
+    // a non-uniform fallback after it would show here.)
+    for (cone_angle, ks) in [(0.0f64, vec![1usize, 300]), (0.15, vec![1, 40, 12_000]), (0.3, vec![12_000]), (1.0, vec![30_000])] {
+        let sp = if cone_angle == 0.0 { SO3StateSpace::new(None).unwrap() } else { SO3StateSpace::new(Some((SO3State::identity(), cone_angle))).unwrap() };
+        for k in ks {
+            let w = |j: u64| j << (64 - bits);
+            // rejected proposal: a cube corner (outside the ball) for the unbounded space; the half-turn
+            // direction (4,0,0,0)/4 -> w = 0, deviation pi, for a cone
+            let rej = if cone_angle == 0.0 { [w(0), w(0), w(0), w(0)] } else { [w(12), w(8), w(8), w(8)] };
+            let acc = [w(8), w(8), w(8), w(12)];
+            let mut words = Vec::with_capacity(4 * (k + 1));
+            for _ in 0..k {
+                words.extend_from_slice(&rej);
+            }
+            words.extend_from_slice(&acc);
+            let mut r = ScriptRng { words, pos: 0, log: vec![] };
+            let s = sp.sample_uniform(&mut r).unwrap();
+            let ident = (s.w - 1.0).abs() <= 1e-9 && s.x.abs() <= 1e-9 && s.y.abs() <= 1e-9 && s.z.abs() <= 1e-9;
+            o.ev(json!({"ev": "sp", "sp": "so3", "op": "rejectrun", "cone": cone_angle, "K": k, "words": r.log.len(), "first_accepted": ident,
+                        "insat": sp.satisfies_bounds(&s)}));
         }
     }
 }
